@@ -273,6 +273,7 @@ static void q_once(const plan_t *p)
         case U_ALLOC: {
             size_t size = (size_t)(2 + o->a[2] % 40); int cb = (o->a[3] & 1) ? (int)(nalloc % NCB) : -1;
             int na;
+            if ((o->a[3] >> 2 & 3) == 3 && (o->a[2] >> 8) % 8 == 0) { size = (o->a[2] >> 12 & 1) ? SIZE_MAX : (size_t)1 << 45; PROBE("alloc_size_unsatisfiable"); }
             x %= NUP;
             if (live_allocs() >= maxlive && tup[x] < 0) { EVT("skip", 0, 0, 0); break; }
             g_cur_ctx = tup[x] >= 0 ? "dest-occupied" : "dest-empty";
@@ -338,6 +339,7 @@ static void q_once(const plan_t *p)
         /* ---------------------------------------------------- shared */
         case S_ALLOC: {
             size_t size = (size_t)(2 + o->a[2] % 40); int cb = (o->a[3] & 1) ? (int)(nalloc % NCB) : -1;
+            if ((o->a[3] >> 2 & 3) == 3 && (o->a[2] >> 8) % 8 == 0) { size = (o->a[2] >> 12 & 1) ? SIZE_MAX : (size_t)1 << 45; PROBE("alloc_size_unsatisfiable"); }
             x %= NSP;
             if (live_allocs() >= maxlive && tsp[x] < 0) { EVT("skip", 0, 0, 0); break; }
             g_cur_ctx = tsp[x] >= 0 ? "dest-occupied" : "dest-empty";
@@ -585,7 +587,7 @@ static void q_gen(prng_t *r, int mode, plan_t *p)
                  : x < 76 ? W_FROM : x < 88 ? W_LOCK : x < 91 ? W_SWAP : x < 97 ? W_RESET
                  : x < 98 ? G_SET : x < 99 ? G_COPY : G_SWAP;
         op_t *o = plan_add(p, kind);
-        o->a[0] = prng_below(r, 12); o->a[1] = prng_below(r, 12); o->a[2] = prng_next(r) >> 8; o->a[3] = prng_below(r, 4);
+        o->a[0] = prng_below(r, 12); o->a[1] = prng_below(r, 12); o->a[2] = prng_next(r) >> 8; o->a[3] = prng_below(r, 16);
         if (faults && (kind == U_ALLOC || kind == S_ALLOC) && prng_chance(r, 1, 3)) o->a[4] = 1 + prng_below(r, 2);
     }
     if (mode == 20) {
